@@ -99,6 +99,13 @@ def gen_query(rng, keys):
         q = rkey(rng, 1, 5)
     if not q:
         q = rng.choice(ALPH)
+    if rng.random() < 0.2 and kind in "LG":
+        # the (pointer, length) overloads with a buffer that continues past the length: the bytes after the
+        # bound (often continuing a stored key) must not be looked at
+        tail = (rng.choice(keys)[len(q):] if keys and rng.random() < 0.6 else "") or rkey(rng, 1, 2)
+        n = len(q) // 2
+        cut = rng.choice([n, n, max(1, n - 1)])
+        return "%s:%s:%d" % (kind.lower(), q + tail, cut)
     return "%s:%s" % (kind, q)
 
 
@@ -114,6 +121,7 @@ def exhaustive_small():
             for ks in itertools.permutations(keys, n):
                 toks = ["A%d" % auto] + ["a:%s=%d" % (k, i + 1) for i, k in enumerate(ks)]
                 toks += ["L:" + q for q in qs] + ["G:" + q for q in qs[:5]] + ["H:" + q for q in qs[:5]] + ["S", "D"]
+                toks += ["l:616263616263:%d" % n2 for n2 in (1, 2, 3)] + ["g:616263616263:2"]
                 cases.append(" ".join(toks))
                 toks2 = toks[:1 + n] + ["r:" + ks[0]] + ["L:" + q for q in qs] + ["H:" + ks[0], "S", "D"]
                 cases.append(" ".join(toks2))
